@@ -110,3 +110,41 @@ Proof.
   split; [intros a b H; apply Z.eqb_eq in H; apply Z.ltb_ge; lia|].
   eexists _, _. split; [vm_compute; reflexivity|]. split; [vm_compute; reflexivity|]. vm_compute. reflexivity.
 Qed.
+
+(* ---- the same on the two float carriers the model is evaluated on in the
+   correspondence check (order laws discharged in Proofs/FloatOrder.v through
+   Flocq; transfer through the NaN-free subtype and C10's abstraction theorem
+   in Proofs/SubCarrier.v) ---- *)
+Require Import KV.Run.F64 KV.Run.F32 KV.Proofs.FloatInstances.
+From Flocq Require Import IEEE754.BinarySingleNaN.
+(* non-vacuity on binary64: a concrete run with ties meets the hypotheses *)
+Definition C04_f64_nonvacuous := f64_run_exists.
+
+Theorem C04_f64_cuts_are_threshold_components : forall (p : profile) (a : algo) s d
+  (m : list PrimFloat.float) (n : N) s' d' m' M0,
+  a = ALinkage \/ a = AMst ->
+  run_with F64 p a Single s d m n = Ok (s', d', m') ->
+  prologue p m n = Ok M0 ->
+  Forall (fun v => PrimFloat.ltb v PrimFloat.infinity = true) m ->
+  forall t : PrimFloat.float, PrimFloat.is_nan t = false ->
+  exists j, j <= m_obs M0 - 1 /\ cut_at (kops_of F64 Single) t j (heights d')
+    /\ forall x y, x < m_obs M0 -> y < m_obs M0 ->
+        (labi (m_obs M0) (d_steps d') j x = labi (m_obs M0) (d_steps d') j y
+         <-> conn PrimFloat.ltb (dcell (kops_of F64 Single) M0) (0 :: seq 1 (m_obs M0 - 1)) t x y).
+Proof. exact mst_cuts_f64. Qed.
+Print Assumptions C04_f64_cuts_are_threshold_components.
+
+Theorem C04_f32_cuts_are_threshold_components : forall (p : profile) (a : algo) s d
+  (m : list f32) (n : N) s' d' m' M0,
+  a = ALinkage \/ a = AMst ->
+  run_with F32 p a Single s d m n = Ok (s', d', m') ->
+  prologue p m n = Ok M0 ->
+  Forall (fun v => Bltb v (B754_infinity false) = true) m ->
+  forall t : f32, BinarySingleNaN.is_nan t = false ->
+  exists j, j <= m_obs M0 - 1 /\ cut_at (kops_of F32 Single) t j (heights d')
+    /\ forall x y, x < m_obs M0 -> y < m_obs M0 ->
+        (labi (m_obs M0) (d_steps d') j x = labi (m_obs M0) (d_steps d') j y
+         <-> conn (@Bltb 24 128) (dcell (kops_of F32 Single) M0) (0 :: seq 1 (m_obs M0 - 1)) t x y).
+Proof. exact mst_cuts_f32. Qed.
+Print Assumptions C04_f32_cuts_are_threshold_components.
+
